@@ -38,7 +38,7 @@ MANIFEST = {
     "technique": "Lean 4 proof over executable models + differential correspondence model vs implementation + implementation-side "
                  "oracles (round trips, independent SEC/DER reference, hashlib)",
 }
-RULE = ("ops key_verify (raw DER: real signatures and every malformation of them)/key_sign_pub/key_override/key_override_pub/key_public/sec_enc/sec_dec/sec_dec_c/key_from_sec/key_ctor_d/key_ctor_pair/key_addr/wif_enc/wif_dec/der_enc/der_dec/der_int/der_len/der_rdlen/"
+RULE = ("ops key_verify (raw DER: real signatures and every malformation of them)/key_sign_pub/key_override/key_override_pub/key_public/is_sec/key_nohier/sec_enc/sec_dec/sec_dec_c/key_from_sec/key_ctor_d/key_ctor_pair/key_addr/wif_enc/wif_dec/der_enc/der_dec/der_int/der_len/der_rdlen/"
         "der_rmint/der_rmseq; boundary corpus (every SEC blob shape of length 0..70 x prefix 0..7 x x in {0,1,p-1,p,p+1,p+k,2^256-1}; DER "
         "sign-padding and length-form boundaries, single-byte corruptions, truncations, trailing bytes; exponents 0,1,n-1,n,n+1,2^256-1; "
         "WIF on every network) + seeded random; distinct = distinct op line; trivial = SEC blob whose length is neither 33 nor 65")
@@ -169,6 +169,13 @@ def eval_op(op: str) -> str:
                 return "ok none"
             se = key.secret_exponent()
             return "ok public" if se is None else "ok %d %d" % (se, 1 if key.is_compressed() else 0)
+        if k == "is_sec":
+            from pycoin.encoding.sec import is_sec
+            return "ok %d" % (1 if is_sec(unhx(a[1])) else 0)
+        if k == "key_nohier":
+            key = nets()[a[1]].keys.private(int(a[2]), is_compressed=a[3] == "1")
+            return "ok %d %d %d" % (key.subkey() is key and key.subkey("0/1") is key, key.subkey_for_path("0/1H") is key,
+                                    [x is key for x in key.subkeys("0-3")] == [True])
         if k == "key_verify":
             key = nets()["btc"].keys.public(unhx(a[1]))
             return "ok %d" % (1 if key.verify(unhx(a[2]), unhx(a[3])) else 0)
@@ -455,6 +462,14 @@ def oracle(op: str, out: str):
         if len(blob) == 1 + 2 * bc and blob[0] == 4:
             if int.from_bytes(blob[1:1 + bc], "big") < p_ and int.from_bytes(blob[1 + bc:], "big") < p_:
                 return "a well-formed uncompressed SEC blob was refused on " + a[1]
+    if k == "is_sec":
+        b = unhx(a[1])
+        if (out == "ok 1") != ((len(b) == 33 and b[0] in (2, 3)) or (len(b) == 65 and b[0] == 4)):
+            return "is_sec does not test for prefix 02/03 with 33 bytes or 04 with 65"
+        if out == "ok 0" and impl("key_from_sec btc " + a[1]).startswith("ok "):
+            return "is_sec refuses a blob Key.from_sec accepts"
+    if k == "key_nohier" and out.startswith("ok ") and out != "ok 1 1 1":
+        return "a plain Key's subkey()/subkey_for_path()/subkeys() is not the key itself"
     if k == "key_verify":
         # strictness seen from outside: whatever strict DER decoding refuses must be False, never an exception
         if out.startswith("err ") and ref_sec_point(unhx(a[1])) is not None:
@@ -698,6 +713,11 @@ def gen_keyops(ctx, emit, netnames):
     for b in (b"", b"\x30", b"\x30\x00", b"\x30\x02\x02\x00", b"\x30\x04\x02\x00\x02\x00", b"\x30\x06\x02\x01\x01\x02\x01\x01",
               b"\x30\x81\x06\x02\x01\x01\x02\x01\x01", b"\x30\x06\x02\x01\x81\x02\x01\x01", b"\x30\x80", b"\x30\x84\xff\xff\xff\xff"):
         emit("key_verify %s %s %s" % (hx(btc.keys.private(7).sec()), hx(b"\x11" * 32), hx(b)))
+    for L in (0, 1, 32, 33, 34, 64, 65, 66):
+        for pfx in range(8):
+            emit("is_sec " + hx((bytes([pfx]) + rng.randbytes(70))[:L]))
+    for n in rng.sample(netnames, min(6, len(netnames))):
+        emit("key_nohier %s %d %d" % (n, rng.randrange(1, N), rng.randrange(2)))
     # override_network: every ordered pair of a few networks, both flags; public keys are refused
     some = [n for n in ("btc", "xtn", "ltc", "doge", "bch", "dash") if n in netnames]
     for n1 in some:
